@@ -1003,7 +1003,12 @@ def run(chk, model_ok):
     chk.coverage.update({
         "evaluations": n_eval,
         "distinct_nontrivial": len(distinct),
-        "rule": "references: random group trees (depth <= 3, shared small name pools so that shadowing, local apexes and lateral "
+        "rule": "references: random group trees (depth <= 3, every fifth <= 4; shared small name pools so that shadowing, local apexes and lateral "
+                "candidates are frequent; every eighth tree from pools of names whose flattened names clash: g/g_, x/_x/g__x/g__x_1) x probes; "
+                "coordinate files also with two or three same-named coordinate variables on the ancestor path, string-valued coordinate variables, depth >= 4; "
+                "fields also with a chain of depth 4, string-valued auxiliary coordinates, same-named variables in the root and an intermediate group; "
+                "every array handed out by a read-back field is overwritten in place and read again. Originally: "
+                "random group trees (depth <= 3, shared small name pools so that shadowing, local apexes and lateral "
                 "candidates are frequent) x probes of every rule class of the flattener's table (list/dict form, keys/values, "
                 "dimension-first, standard-name fallback, scalar-coordinate limit) x reference forms absolute/relative(../, sub-paths, "
                 "above root, missing group, missing last component)/by proximity/lateral, strict and lax; coordinate files: dimension "
@@ -1019,7 +1024,8 @@ def run(chk, model_ok):
     })
     chk.assumptions += [
         "parse_attribute's regular expressions are not modelled: generated attributes are word lists / 'key: value' lists and are handed to the model parsed",
-        "flattened names of 256 characters or more are replaced by SHA-1 digests; the model takes the hash as a parameter and the correspondence only uses shorter names",
+        "flattened names of 256 characters or more are replaced by SHA-1 digests; the model takes the hash as a parameter (theorems: injective, values without '__' or trailing '_') and the correspondence only uses shorter names",
+        "the writer's second check (no hidden dimension) is modelled against the set of all dimensions of the field, which is the state of the file when the first non-coordinate variable is created",
         "netCDF-4's own scoping (a variable's dimension name is looked up from its group towards the root) is modelled by nc_lookup_dim, not verified",
         "group and variable names are free of regular-expression metacharacters (the reader strips the group prefix of a flattened name with re.sub)",
         "the order in which netCDF4-python iterates dimensions, variables and sub-groups is taken from the library (the model is given the tree in that order)",
